@@ -167,9 +167,10 @@ def _closed_walk_with_error(rng, acc, k, live):
 def check_repair(ctx, case):
     dsw = import_dsw()
     acc = gens.acc_of(case)
-    if hash(case["s"]) % 9 == 0:
-        acc = np.asfortranarray(acc)
-        ctx.cls("accessor layout|F")
+    lay = {0: "F", 1: "i32", 2: "i16"}.get(sum(map(ord, case["s"][:64])) % 11)
+    if lay:
+        acc = gens.as_layout(acc, lay)
+        ctx.cls("accessor layout|" + lay)
     k, s, start = case["k"], case["s"], case["start"]
     if len(s) < k:
         return
@@ -205,7 +206,7 @@ def floors(agg, tier):
     c = agg["classes"]
     for name, need in (("string|first-not-an-arc", 500), ("string|dead-start", 50), ("string|last-window", 300),
                        ("string|first-window", 300), ("string|random", 200), ("string|alternating", 200), ("string|length-k", 200),
-                       ("string|edited", 500), ("family|raw", 200), ("string|many-error-sites", 30), ("string|order-8", 20), ("string|thousand-error-sites", 10), ("accessor layout|F", 500)):
+                       ("string|edited", 500), ("family|raw", 200), ("string|many-error-sites", 30), ("string|order-8", 20), ("string|thousand-error-sites", 10), ("accessor layout|F", 500), ("accessor layout|i16", 300)):
         if c.get(name, 0) < need:
             out.append("%s observed %d < %d" % (name, c.get(name, 0), need))
     return out
